@@ -5,6 +5,7 @@ import (
 	"runtime"
 	"strconv"
 	"sync"
+	"sync/atomic"
 
 	"github.com/parsyl/parquet"
 	"verif/harness/hlib"
@@ -42,15 +43,28 @@ func specPack(w int, vals []uint8) []byte {
 // failures and a COUNT line.
 func brute17(args []string) int {
 	maxw, _ := strconv.Atoi(args[0])
+	// optional second argument: stride for width 4 (1 = every group; an odd stride such as 257
+	// visits a 1/257 sample in which every slot still takes every value against varied neighbours)
+	stride4 := uint64(1)
+	if len(args) > 1 {
+		s, _ := strconv.Atoi(args[1])
+		if s > 0 {
+			stride4 = uint64(s)
+		}
+	}
 	var mu sync.Mutex
 	fails := 0
 	total := uint64(0)
+	var stop int32
 	report := func(s string) {
 		mu.Lock()
 		if fails < 5 {
 			fmt.Println("FAIL " + s)
 		}
 		fails++
+		if fails >= 5 {
+			atomic.StoreInt32(&stop, 1) // enough failing inputs: end the search
+		}
 		mu.Unlock()
 	}
 	for w := 1; w <= maxw; w++ {
@@ -72,7 +86,14 @@ func brute17(args []string) int {
 				vals := make([]uint8, 8)
 				bs := make([]byte, w)
 				mask := uint64(1)<<uint(w) - 1
-				for x := lo; x < hi; x++ {
+				step := uint64(1)
+				if w == 4 {
+					step = stride4
+				}
+				for x := lo + (step-lo%step)%step; x < hi; x += step {
+					if x&1023 == 0 && atomic.LoadInt32(&stop) != 0 {
+						return
+					}
 					for i := 0; i < 8; i++ {
 						vals[i] = uint8((x >> uint(w*i)) & mask)
 					}
@@ -104,7 +125,11 @@ func brute17(args []string) int {
 			}(lo, hi)
 		}
 		wg.Wait()
-		total += n
+		if w == 4 {
+			total += n / stride4
+		} else {
+			total += n
+		}
 	}
 	fmt.Printf("COUNT groups=%d fails=%d\n", total, fails)
 	if fails > 0 {
